@@ -698,6 +698,19 @@ def types_zoo(rng, name, nmsgs=6):
             m.field("fwd", P + f".Zoo{min(nmsgs - 1, i + 1)}")   # forward (or self) reference
             tags.add("forward-ref")
         msgs.append(P + f".Zoo{i}")
+    # real oneofs whose names start with an underscore (the idiom that preceded proto3 `optional`), before and between ordinary
+    # oneofs and next to genuinely optional fields (whose synthetic oneofs have the same look)
+    um = f.message("UnderscoreOneofs")
+    um.field("nickname", "string", oneof="_nickname")
+    um.field("email", "string", oneof="contact")
+    um.field("phone", "int64", oneof="contact")
+    um.field("text", "string", oneof="_value")
+    um.field("number", "sint32", oneof="_value")
+    um.field("shade", enums[0], oneof="_value")
+    um.field("maybe", "int32", optional=True)
+    um.field("last_a", "bool", oneof="last")
+    um.field("last_b", P + ".Shared", oneof="last")
+    tags.add("underscore-named-real-oneof")
     if rng.random() < 0.7:
         # a target file whose only use of another file's types (a sibling target file, a dependency file) is as map values
         f3 = File(f"{dirp}/map_only.proto", pkg, deps=["google/protobuf/timestamp.proto", "google/type/latlng.proto", f2.pb.name])
@@ -816,6 +829,10 @@ def order_api(rng, name, same_short=False):
         tags.add("equal-resource-short-names")
     q = f.message("LinkRequest")
     q.field("name", "string", required=True)
+    # value-like fields whose sample / test / docstring mock values must not come from a clock or a random source
+    q.field("idempotency_key", "string", required=True, uuid4=True)
+    q.field("request_id", "string", uuid4=True)
+    q.field("as_of", ".google.protobuf.Timestamp", required=True)
     order = list(refs)
     rng.shuffle(order)
     for i, t in enumerate(order):
